@@ -17,6 +17,7 @@ def oracle(line: str, obs: Obs):
     fails = []
     pending: dict[str, list] = {}          # conn -> unanswered requests read (cmd, app, hbh, e2e)
     dup_inflight = set()
+    ident: dict[str, str] = {}             # conn -> host identity after the capabilities exchange
     for ev, lines in obs.blocks:
         t = ev.split(" ")
         if t[0] == "rx":
@@ -41,9 +42,23 @@ def oracle(line: str, obs: Obs):
                         if int(d["flags"]) & 0x80:
                             fails.append({"what": "answer transmitted with the request bit set", "real": l})
                     else:
-                        fails.append({"what": "transmitted answer does not answer an unanswered request received on that "
-                                              "connection (answer to an answer, second answer, or wrong identifiers)",
-                                      "real": l, "event": ev})
+                        f = {"what": "transmitted answer does not answer an unanswered request received on that "
+                                     "connection (answer to an answer, second answer, or wrong identifiers)",
+                             "real": l, "event": ev}
+                        # the request is pending on another connection identified as the same peer?
+                        host = ident.get(c)
+                        other = next((c2 for c2, ks in pending.items() if c2 != c and key in ks and host and ident.get(c2) == host), None)
+                        if other is not None and t[0] == "ans":      # (only answers submitted by an application take that path)
+                            pending[other].remove(key)
+                            f["sig"] = "answer_on_peers_other_connection"
+                            f["what"] = ("application answer transmitted on another connection of the same peer than the one the "
+                                         f"request arrived on (request on {other}, answer on {c})")
+                        fails.append(f)
+        for l in lines:
+            if l.startswith("CONN "):
+                d = kv(l)
+                if d.get("ident", "-") != "-":
+                    ident[l.split(" ")[1]] = d["ident"]
     return fails
 
 
@@ -52,6 +67,25 @@ def scenarios(rng: random.Random, n: int, depth: int) -> list[str]:
     for i in range(n):
         cfg = rng.choice(list(nodegen.CONFIGS))
         out.append(nodegen.random_scenario(rng, cfg, depth, unique=True, handshake=0.7))
+    # two connections of one peer, both handshaken: every request kind on the peer's current and on its extra connection
+    h = [40000]
+
+    def n():
+        h[0] += 1
+        return h[0]
+    for cfgn in ("two", "rq", "basic"):
+        pre = (nodegen.CONFIGS[cfgn] + " | start | acc | rx 0 " + nodegen.cer("peer1.x", "4+3", n(), n(), extra=",acct=3") +
+               " | acc | rx 1 " + nodegen.cer("peer1.x", "4+3", n(), n(), extra=",acct=3"))
+        for c in (0, 1):
+            reqs = [nodegen.dwr(n(), n()), nodegen.dpr(n(), n()), nodegen.ccr(n(), n()), nodegen.ccr(n(), n(), realm="foreign.realm"),
+                    nodegen.unk(n(), n()), nodegen.unk(n(), n(), app=77), nodegen.cer("peer1.x", "4", n(), n()),
+                    nodegen.ccr(n(), n(), drop=("sid", "rt"))]
+            for r in reqs:
+                out.append(pre + f" | rx {c} {r} | tick")
+            out.append(pre + f" | rx {c} {nodegen.dpr(n(), n())} | rx {c} {nodegen.dwr(n(), n())} | rx {1 - c} {nodegen.dwr(n(), n())}")
+            napps = nodegen.CONFIGS[cfgn].count("app:")
+            out.append(pre + f" | rx {c} {nodegen.ccr(n(), n())} | rx {c} {nodegen.dpr(n(), n())} | " +
+                       " | ".join(f"ans {a} 0 2001" for a in range(napps)))
     # defective answers on connections in every state (corpus of past findings first)
     base = nodegen.CONFIGS["out"]
     out.insert(0, base + " | start ok,ok | rx 0 " + nodegen.cea(2001, None, 2001, 268435464))
@@ -70,7 +104,7 @@ def run(res: Result, tier: str, seed: int):
 
 
 def signature(f: dict):
-    return None
+    return f.get("sig")
 
 
 def search(res: Result, seed: int, broken) -> list:
